@@ -302,6 +302,7 @@ class Unit:
         emit_text('use vstd::prelude::*;')
         emit_text('verus! {')
         emit_text(open(os.path.join(VERIF, 'contracts', 'std_specs.rs')).read())
+        emit_text(open(os.path.join(VERIF, 'contracts', 'std_str_specs.rs')).read())
         for e in self.entries:
             if isinstance(e, Raw):
                 emit_text(e.text, None)
@@ -480,6 +481,11 @@ class Unit:
                 text, n30 = inline_calls(text, info)
                 if n30:
                     self.desugar_log.append(('D30', '%s: %d call(s) of the new contract-less helper `%s` replaced by its body (arguments bound first, `self` bound to the receiver)' % (e.qualname, n30, info['name'])))
+        if not e.trusted and re.search(r'\.\s*(?:starts_with|ends_with|strip_prefix|strip_suffix|trim_end_matches|trim_start_matches|contains|trim_end|trim_start)\s*\(', text):
+            from .inline import desugar_str_patterns
+            text, l32 = desugar_str_patterns(text)
+            for ln_ in l32:
+                self.desugar_log.append(('D32', '%s: %s' % (e.qualname, ln_)))
         if re.search(r'\bcontinue\b', text) and re.search(r'\bfor\b', text) and not e.trusted:
             from .inline import desugar_for_continue
             text, n31 = desugar_for_continue(text)
